@@ -45,6 +45,8 @@ def run(ctx, prop, groups, shards=None):
             k = "Verify/t%d/%s" % (c["t"], c["tmut"]["kind"])
         elif c["op"] == "RLEval":
             k = "RLEval/" + c["cls"]["kind"]
+        elif c["op"] in ("VerifySeq", "RLSeq"):
+            k = c["op"] + ("/t%d" % c["t"] if "t" in c else "")
         kinds[k] = kinds.get(k, 0) + 1
     return n, cases, kinds
 
